@@ -417,9 +417,20 @@ def oracle_c07(cid, impl, m):
             if st not in ("bad", "notfound"):
                 return ("c07-bad-token", f"item {i} ({k}): malformed page token answered {st}")
             continue
+        sc, tk = m.get(f"sc{i}"), m.get(f"tk{i}")
         if st != "ok":
+            if k in ("L", "PL") and sc is not None and tk in ("e", "n"):
+                return ("c07-valid-token-rejected", f"item {i} ({k}): an acceptable page request with "
+                        f"{'the token returned by an earlier page' if tk == 'n' else 'no token'} answered {st}")
             continue
         obs = impl.get(f"o{i}", "")
+        if k in ("L", "PL") and sc is not None and tk == "e":
+            n = int(obs.split("/")[0].split(":")[0])
+            if n != min(int(pp), int(sc)):
+                return ("c07-first-page", f"item {i} ({k}): first page has {n} rows, {sc} relationships match, page size {pp}")
+            if obs.endswith("/-") != (int(sc) <= int(pp)):
+                return ("c07-token", f"item {i} ({k}): first page of {n} rows, {sc} matches, page size {pp}: "
+                                     f"token {'empty' if obs.endswith('/-') else 'present'}")
         if k == "LA":
             msg = _la_ok(i, impl, m)
             if msg:
